@@ -92,3 +92,6 @@ REPLAY["C17"] = replay_generic
 GENERIC_CONFIRM["C13"] = checks_pure.iso_confirm
 CHECKS["C13"] = checks_pure.run_c13
 REPLAY["C13"] = replay_generic
+
+CHECKS["C14"] = checks_sess.run_c14
+REPLAY["C14"] = replay_c01
